@@ -35,7 +35,7 @@ def value_text(c: str, v) -> str:
     if c == "serial":
         return str(v)
     if c == "datetime":
-        return v.strftime("%Y-%m-%d %H:%M:%S.%f") if v.year >= 1000 else v.isoformat(" ")
+        return f"{v.year:04d}-{v.month:02d}-{v.day:02d} {v.hour:02d}:{v.minute:02d}:{v.second:02d}.{v.microsecond:06d}"
     if c == "version":
         from gen_ver import wire
         return wire(v)
